@@ -50,3 +50,28 @@ def check_offset_rounding(run, fx):
     run.check(sa == sb and len(sa) == 1, rule, "formatter/matcher", "both round with %s" % sorted(sa),
               "the formatter rounds offsets with %s but the matcher with %s (an empty set means the shared rounding kernel is not "
               "used there)" % (sorted(sa), sorted(sb)), a.loc)
+
+
+def check_day_carry(run, fx):
+    rule = "R6.disambiguation-day-carry"
+    run.rule(rule, "in DisambiguatePossibleEpochNanoseconds both the `earlier` and the `later` branch balance the date with "
+                   "day + (day carry of the shifted time): the carry already has the sign of the shift, so both branches add it")
+    f = fx["temporal_rs"].fn(CORE + "timezone::TimeZone::disambiguate_possible_epoch_nanos")
+    if f is None:
+        run.anchor_missing(rule, "disambiguate_possible_epoch_nanos", "not found")
+        return
+    ops = []
+    for n in hir_walk(f.hir):
+        if isinstance(n, dict) and n.get("k") == "call" and str(n.get("fn", "")).endswith("IsoDate::balance") and len(n.get("args", [])) == 3:
+            a = n["args"][2]
+            if a.get("k") == "bin":
+                names = {x.get("name") for x in hir_walk(a) if isinstance(x, dict) and x.get("k") == "field"}
+                ops.append((a.get("op"), "day" in names, "0" in names))
+            else:
+                ops.append((a.get("k"), False, False))
+    if len(ops) < 2:
+        run.anchor_missing(rule, "balance-calls", "expected two IsoDate::balance calls (earlier / later), found %d" % len(ops), f.loc)
+        return
+    run.check(all(o == ("+", True, True) for o in ops), rule, "earlier/later", "%d branches: day + carry" % len(ops),
+              "the branches balance the date with %s; expected `day + <shifted time>.0` in both (a carry that is subtracted moves "
+              "the result by two days when the shift crosses midnight)" % [o[0] for o in ops], f.loc)
